@@ -340,15 +340,27 @@ func main() {
 	}
 	defer os.RemoveAll(root)
 	for i := 0; i < n; i++ {
+		var fn func()
 		switch {
 		case i%100 == 99:
-			caseNoPath()
+			fn = caseNoPath
 		case i%10 < 6:
-			caseMode()
+			fn = caseMode
 		case i%10 < 9:
-			caseSet()
+			fn = caseSet
 		default:
-			casePubSet()
+			fn = casePubSet
+		}
+		// watchdog: a call that does not come back is reported as a case, not as a dead harness
+		done := make(chan struct{})
+		go func() { defer close(done); fn() }()
+		select {
+		case <-done:
+		case <-time.After(60 * time.Second):
+			out.Note("hang")
+			out.Case(true, "hang", HS("mode-case"), I(int64(i)))
+			out.Close()
+			os.Exit(0)
 		}
 	}
 	out.Close()
